@@ -9,6 +9,7 @@ import (
 	"strings"
 
 	"github.com/goatcms/goatcore/filesystem"
+	"verifharness/fsx"
 	"verifharness/viewsx"
 )
 
@@ -31,6 +32,7 @@ func cmdViews(args []string) error {
 	in := fl.String("in", "", "TLC output with view case lines")
 	tmp := fl.String("tmp", "", "scratch for disk roots")
 	roots := fl.String("roots", "mem,disk", "root kinds to run")
+	spelling := fl.String("spelling", "", "\"long\": every spelling gets a neutral prefix of more than 32 segments (. and empty segments)")
 	naming := fl.String("naming", "", "\"prefix\": instantiate the model's names so that some start with the name of the disk root directory")
 	fl.Parse(args)
 	if *naming == "prefix" {
@@ -76,6 +78,14 @@ func cmdViews(args []string) error {
 			samples = append(samples, c.Raw)
 		}
 		p := strings.Join(c.Sp, "/")
+		if *spelling == "long" {
+			// the meaning of a spelling does not depend on its length (a leading slash stays the leading slash)
+			if strings.HasPrefix(p, "/") {
+				p = "/" + fsx.NeutralPrefix + p[1:]
+			} else {
+				p = fsx.NeutralPrefix + p
+			}
+		}
 		hasCrypt, hasRO := false, false
 		for _, l := range c.Stack {
 			hasCrypt = hasCrypt || l.K == "crypt"
@@ -88,8 +98,10 @@ func cmdViews(args []string) error {
 		}
 		before, err := w.Snapshot()
 		if err != nil {
+			// (an escape of an EARLIER case can have damaged this world's directory: no verdict here, go on)
 			w.Close()
-			return err
+			fail(c, "infra:snapshot", "reads", err.Error())
+			continue
 		}
 		for _, op := range viewsx.ReadOps {
 			calls++
@@ -173,7 +185,8 @@ func cmdViews(args []string) error {
 			before, err := w.Snapshot()
 			if err != nil {
 				w.Close()
-				return err
+				fail(c, "infra:snapshot", op, err.Error())
+				continue
 			}
 			if pan := viewsx.DoMut(w.Top, op, p); pan != "" {
 				fail(c, "panic:"+op, op, pan)
